@@ -2,6 +2,7 @@ package filesystem
 
 import (
 	"context"
+	"time"
 
 	"github.com/ARM-software/golang-utils/utils/zz_verif/verif"
 )
@@ -42,6 +43,13 @@ func vC04Populate(fs *vLinkFs) *vC04Tree {
 	_ = f.Close()
 	f, _ = fs.Create("/s/o/d/z")
 	_, _ = f.WriteString("outside-z")
+	_ = f.Close()
+	// siblings whose names have the tree's name as a prefix
+	_ = fs.MkdirAll("/s/t2", 0o755)
+	f, _ = fs.Create("/s/t2/keep")
+	_, _ = f.WriteString("sibling")
+	_ = f.Close()
+	f, _ = fs.Create("/s/tfile")
 	_ = f.Close()
 	_ = fs.MkdirAll("/s/t", 0o755)
 	for _, name := range []string{"a", "b"} {
@@ -104,14 +112,18 @@ func VerifC04_Removal() {
 	before := vOutsideOf(lfs.snapshot())
 	ctx := context.Background()
 	op := verif.Choice("op", 3)
+	target := "/s/t"
+	if verif.Bool("trailingSeparator") {
+		target = "/s/t/"
+	}
 	var err error
 	switch op {
 	case 0:
-		err = fs.Rm("/s/t")
+		err = fs.Rm(target)
 	case 1:
-		err = fs.RemoveWithContext(ctx, "/s/t")
+		err = fs.RemoveWithContext(ctx, target)
 	case 2:
-		err = fs.CleanDirWithContext(ctx, "/s/t")
+		err = fs.CleanDirWithContext(ctx, target)
 	}
 	verif.Observe("failed", err != nil)
 	after := lfs.snapshot()
@@ -195,4 +207,40 @@ func VerifC04_FaultyRemoval() {
 		verif.Reach("fault_injected")
 	}
 	verif.Assert("handles_balanced", lfs.opens == lfs.closes)
+}
+
+// VerifC04_GarbageCollect: collecting garbage below a root never removes the
+// root itself, never touches anything outside it, and keeps recent entries.
+func VerifC04_GarbageCollect() {
+	rec, fs := vNewFs()
+	_ = fs.MkDir("/g/root")
+	_ = fs.MkDir("/g/sibling")
+	_ = fs.WriteFile("/g/sibling/keep", []byte("k"), 0o644)
+	for _, d := range []string{"/g/root/d1", "/g/root/d2"} {
+		switch verif.Choice("kind", 3) { // absent, empty directory, directory with a (recent) file
+		case 1:
+			_ = fs.MkDir(d)
+		case 2:
+			_ = fs.MkDir(d)
+			_ = fs.WriteFile(d+"/f", []byte("f"), 0o644)
+		}
+	}
+	if verif.Bool("fileInRoot") {
+		_ = fs.WriteFile("/g/root/f", []byte("f"), 0o644)
+	}
+	before := vSnapshot(rec.inner, "/g")
+	durations := []time.Duration{time.Minute, time.Hour}
+	err := fs.GarbageCollectWithContext(context.Background(), "/g/root", durations[verif.Choice("olderThan", 2)])
+	verif.Assert("collection_succeeds", err == nil)
+	after := vSnapshot(rec.inner, "/g")
+	_, statErr := rec.inner.Stat("/g/root")
+	verif.Assert("the_root_itself_is_kept", statErr == nil)
+	verif.Assert("nothing_outside_the_root_is_touched", vSameTree(vSubtree(before, "/g/sibling"), vSubtree(after, "/g/sibling")))
+	// recent files are never collected (every file here was written just now)
+	for _, n := range before {
+		if !n.dir && vPathInside("/g/root", n.path) {
+			_, e := rec.inner.Stat(n.path)
+			verif.Assert("recent_files_survive", e == nil)
+		}
+	}
 }
